@@ -453,6 +453,8 @@ def run(ctx):
         dict(kind="ip", pairing="none", waiters=2, ids=2 if not quick else 1, P=1),
         dict(kind="ip", pairing="cached", waiters=2, ids=1, P=1),
         dict(kind="coap", pairing="none", waiters=2, ids=1, P=1),
+        dict(kind="coap", pairing="nocache", waiters=1, ids=1, P=0),
+        dict(kind="ip", pairing="nocache", waiters=1, ids=1, P=0),
         dict(kind="ble", pairing="none", waiters=2, ids=1, P=1),
         dict(kind="ble", pairing="cached", waiters=2, ids=1, P=1),
         dict(kind="ble", pairing="nocache", waiters=1, ids=1, P=0),
